@@ -8,14 +8,13 @@ def showHeader (h : Header) : String :=
   s!"id={h.id} qr={h.qr} op={h.opcode} aa={h.aa} tc={h.tc} rd={h.rd} ra={h.ra} rcode={h.rcode} qd={h.qdcount} an={h.ancount} ns={h.nscount} ar={h.arcount}"
 
 def showRR (r : RR) : String :=
-  let rdata := if r.type = typePTR then Bytes.toHex (cstr r.rdata) else Bytes.toHex r.rdata
-  s!"{Bytes.toHex (cstr r.name)}/{r.type}/{r.cls}/{r.ttl}/{r.rdlength}/{rdata}"
+  s!"{Bytes.toHex r.name}/{r.type}/{r.cls}/{r.ttl}/{r.rdlength}/{Bytes.toHex r.rdata}"
 
 def showOut : Out → String
   | .ret code none => s!"rc={code} null"
   | .ret code (some m) =>
     let rrs := if m.answers.isEmpty then "-" else ",".intercalate (m.answers.map showRR)
-    s!"rc={code} {showHeader m.hdr} q={Bytes.toHex (cstr m.query.name)}/{m.query.qtype}/{m.query.qclass} rr={rrs}"
+    s!"rc={code} {showHeader m.hdr} q={Bytes.toHex m.query.name}/{m.query.qtype}/{m.query.qclass} rr={rrs}"
   | .oob => "model:oob"
   | .abort => "abort"
   | .fuel => "model:fuel"
